@@ -3,10 +3,11 @@
 (* (a) SpecMC: exhaustive check of the reference machine                   *)
 (*        Build ; (Save ; Open)*                                            *)
 (*     with the serialiser and a reader that has a `case` for everything   *)
-(*     except the groups / kinds in Lost. With Lost = {} (the intended     *)
-(*     reader) the round trip is the identity and the judge is silent; with *)
-(*     Lost # {} the judge must report exactly the lost groups, attributed  *)
-(*     to the features that requested them, and nothing after cycle 1.      *)
+(*     except the groups in Lost and the body-level kinds in LostKinds.    *)
+(*     With both empty (the intended reader) the round trip is the         *)
+(*     identity and the judge is silent; otherwise the judge must report   *)
+(*     exactly what is lost, attributed to the features / constructors     *)
+(*     that requested it, and nothing after cycle 1.                       *)
 (* (b) SpecGen: generation of the behaviours replayed on the library: a     *)
 (*     focus element carrying 0..MaxF features, embedded in a context.     *)
 (***************************************************************************)
@@ -14,7 +15,8 @@ EXTENDS RoundTrip, Json, SequencesExt
 
 CONSTANTS
   Cycles,        \* number of Save;Open cycles per behaviour
-  Lost,          \* SpecMC: groups / kinds the modelled reader drops
+  Lost,          \* SpecMC: groups (below an element) the modelled reader drops
+  LostKinds,     \* SpecMC: body-level element kinds the modelled reader drops
   MCCtors, MCFeats, MCSect,  \* SpecMC: small alphabets
   MinF, MaxF,    \* SpecGen: number of features on the focus element
   SingleCtors,   \* constructors that receive every applicable single feature
@@ -52,24 +54,25 @@ MCBuild == /\ st.phase = "new"
 MCSave  == /\ st.phase \in {"built", "opened"} /\ st.n < Cycles
            /\ st' = [MCStep(SaveOp, Ser(st.mem)) EXCEPT !.phase = "saved", !.disk = Ser(st.mem)]
 MCOpen  == /\ st.phase = "saved"
-           /\ st' = [MCStep(OpenOp, Parse(st.disk, Lost)) EXCEPT !.phase = "opened", !.mem = Parse(st.disk, Lost), !.n = @ + 1]
+           /\ st' = [MCStep(OpenOp, Parse(st.disk, Lost, LostKinds)) EXCEPT !.phase = "opened", !.mem = Parse(st.disk, Lost, LostKinds), !.n = @ + 1]
 MCNext == (MCBuild \/ MCSave \/ MCOpen) /\ UNCHANGED <<hist, g>>
 SpecMC == MCInit /\ [][MCNext]_vars
 
 \* the design-level statement of C03: with a reader that handles everything, opening what
 \* was saved gives back the document that was built, and saving again writes the same part
 StripSrc(P) == [P EXCEPT !.els = [i \in 1..Len(P.els) |-> [P.els[i] EXCEPT !.src = 0]]]
-Inv_Identity == Lost = {} =>
+Intended == Lost = {} /\ LostKinds = {}
+Inv_Identity == Intended =>
                   /\ st.phase = "opened" => StripSrc(st.mem) = StripSrc(Model(st.built))
                   /\ st.phase \in {"saved", "opened"} => StripSrc(st.disk) = StripSrc(Model(st.built))
 C03Wits == {w \in st.wit : w[1] = "C03"}
-Inv_Silent == Lost = {} => C03Wits = {}
+Inv_Silent == Intended => C03Wits = {}
 
 \* with a lossy reader the judge reports exactly what is lost, once, attributed correctly
 ExpectedLoss(b) ==
   UNION {
     LET c == CT[b.els[i].c]
-        gone == {j \in 1..Len(c.kinds) : c.kinds[j] \in Lost}
+        gone == {j \in 1..Len(c.kinds) : c.kinds[j] \in LostKinds}
     IN {<<"C03", "dropped-on-open", c.name, c.kinds[j]>> : j \in gone}
        \cup (IF c.main \in gone THEN {}
              ELSE UNION {{<<"C03", "dropped-on-open", a, gg>> : a \in Attr(b, i, gg)} : gg \in ElGroups(b.els[i]) \cap Lost})
@@ -82,7 +85,7 @@ Inv_NothingEarly == st.phase \in {"new", "built"} \/ (st.phase = "saved" /\ st.n
 \* Save never changes the document in memory; Open installs what the reader yields
 Act_SavePure == [][st'.phase = "saved" => st'.mem = st.mem]_vars
 Act_OpenReads == [][st'.phase = "opened" => (st'.disk = st.disk /\ Len(st'.mem.els) <= Len(st.disk.els)
-                                             /\ (Lost = {} => StripSrc(st'.mem) = StripSrc(st.disk)))]_vars
+                                             /\ (Intended => StripSrc(st'.mem) = StripSrc(st.disk)))]_vars
 
 \* ----------------------------------------------------------------- SpecGen
 \* contexts: elements before / after the focus, section features, when they are applied
